@@ -191,7 +191,7 @@ def iterate_unit(mode):
         definite = mode != "indefinite"
         cached = mode == "definite-cached"
         eng = ctx.engine(f"C08/_iterate[{mode}]", "C08")
-        eng.inv_props = ("C08", "C09") if cached else None
+        eng.inv_props = ("C08", "C09", "C10") if cached else ("C08", "C10")
         st = State()
         W = World(ctx, eng, st, definite=definite, cached=cached)
         N = W.N if definite else z3.IntVal(1)
@@ -335,7 +335,8 @@ def iterate_unit(mode):
             fo, fn_, lp = d["frame_offset"], to_z3(s.lookup("frame_no")), to_z3(s.lookup("loop"))
             gf, gl = s.ghost["g_from"], s.ghost["g_L"]
             w, h = d["size"].f["width"], d["size"].f["height"]
-            parts = [it["loop"] == lp, w >= 1, h >= 1, psize_ok(s), gl != 0]
+            rd_ = H(s, W.render_data)
+            parts = [it["loop"] == lp, w >= 1, h >= 1, psize_ok(s), gl != 0, z3.Not(to_z3(rd_["finalized"])), rd_["fin_calls"] == 0]
             if definite:
                 D1 = z3.And(fn_ == gf, lp == gl)
                 D2 = z3.And(gf >= N, fn_ == 0, lp == dec(gl))
@@ -363,7 +364,19 @@ def iterate_unit(mode):
                 s.ghost["cache_at_resume"] = dict(H(s, clist)["a"])
                 s.ghost["G"] = ghost_arrays(tag)
             havoc_settings(e, s, tag, rely=False)
-        eng.invariants = {1: LoopSpec(lambda s: common(s, False), havoc_loop), 2: LoopSpec(lambda s: common(s, True), havoc_loop)}
+        import ast as _ast
+        fnode = ctx.fn(IT, "RenderIterator._iterate")
+        wloops = sorted([x for x in _ast.walk(fnode) if isinstance(x, _ast.While)], key=lambda x: (x.lineno, x.col_offset))
+        KNOWN = {"frame_no", "loop", "frame", "cache_entry", "frame_details"}
+
+        def with_unknown(lid):
+            unknown = unknown_loop_locals(fnode, wloops[lid - 1], KNOWN) if lid <= len(wloops) else {}
+
+            def hv(e, s, tag):
+                havoc_loop(e, s, tag)
+                return havoc_unknown_locals(e, [s], unknown, tag)
+            return hv
+        eng.invariants = {1: LoopSpec(lambda s: common(s, False), with_unknown(1)), 2: LoopSpec(lambda s: common(s, True), with_unknown(2))}
         # ---- entry state (as left by _init): loop != 0
         H(st, self_)["_closed"] = False
         st.pc.append(H(st, self_)["loop"] != 0)
@@ -388,6 +401,9 @@ def iterate_unit(mode):
             elif kind == "raise":
                 ok = val.cls in (("StopDefiniteIterationError", "Boom") if definite else ("Boom",))
                 eng.oblige(f"raise:{val.cls}/C08:only-render-errors-escape", s, ok, prop="C08", kind="raise")
+            # the generator itself never finalizes the render data: close() does, after closing the generator, and only data it owns
+            rd_ = s.H(W.render_data)
+            eng.oblige(f"C10:_iterate-leaves-finalization-to-close()@{kind}", s, And(Not(rd_["finalized"]), rd_["fin_calls"] == 0), prop="C10", kind="exit")
             # frame: the iterator never moves the renderable's own current frame
             wr = [x for x in s.ghost.get("writes", []) if x[0] == W.renderable.id]
             eng.oblige("frame/C08:renderable-untouched", s, not wr and Eq(H(s, W.renderable)["_frame"], z3.Int("renderable_frame0")), prop="C08", kind="exit")
